@@ -361,18 +361,6 @@ func (rb *Buffer) ReadFrom(r io.Reader) (n int64, err error) {
 			if err != nil {
 				return
 			}
-			m, err = r.Read(rb.buf[:rb.r])
-			if m < 0 {
-				panic("RingBuffer.ReadFrom: reader returned negative count from Read")
-			}
-			rb.w = (rb.w + m) % rb.size
-			n += int64(m)
-			if err == io.EOF {
-				return n, nil
-			}
-			if err != nil {
-				return
-			}
 		} else {
 			m, err = r.Read(rb.buf[rb.w:rb.r])
 			if m < 0 {
